@@ -289,9 +289,10 @@ fn generate_large(r: &mut Rng, k_seeds: usize) -> Sc {
         _ => {
             // seventy affiliates, each with two purchases (the end-to-end lane spells the second one differently)
             let mut many = vec![];
-            for a in 0..70 {
-                for k in 0..2 {
-                    let mut row = mk("AAA", d(2019, 1, 2) + Duration::days(a * 2 + k), "Buy", 1000 * (a + 1), 1000 + a);
+            // (all seventy once, then all seventy again: by then a bounded table has turned over)
+            for k in 0..2 {
+                for a in 0..70 {
+                    let mut row = mk("AAA", d(2019, 1, 2) + Duration::days(k * 100 + a), "Buy", 1000 * (a + 1), 1000 + a);
                     row[C_AFF] = format!("Acct{:02}", a);
                     many.push(row);
                 }
